@@ -69,8 +69,9 @@ type Layout struct {
 	Deeper    Name `json:"deeper"`
 }
 
-// Case is one executed case: either a single request ("req") or one run of
-// the client discovery chain ("chain").
+// Case is one executed case: a single request ("req"), one run of the client
+// discovery chain ("chain"), or a session of one handler serving two users
+// ("multi").
 type Case struct {
 	Kind        string `json:"kind"`
 	Server      string `json:"server"` // caldav | carddav
@@ -85,9 +86,16 @@ type Case struct {
 	Slash  bool   `json:"slash,omitempty"`  // request path spelled with a trailing slash
 	Depth  string `json:"depth,omitempty"`  // PROPFIND: "", 0, 1, infinity
 	Form   string `json:"form,omitempty"`   // PROPFIND: allprop|prop|nobody; MKCOL: empty|body; PUT: none|if-match|if-none-match; REPORT: query|multiget
+	// Spelling of the request target: "" = Go's canonical escaping,
+	// over-upper | over-lower | mixed = equivalent alternative escapings.
+	Spelling string `json:"spelling,omitempty"`
 
 	// chain
 	Entry string `json:"entry,omitempty"` // well-known | root | root-slash | principal
+
+	// multi (one handler serving two users): 0 = the fixed step list,
+	// otherwise the seed of a random step list.
+	StepSeed int64 `json:"step_seed,omitempty"`
 }
 
 func joinNames(base string, names ...Name) string {
